@@ -34,6 +34,12 @@ pub(crate) struct RingState { pub origin: u32, pub len: u32, pub resv: u32 }
     (q.head.load(Rx), q.dequeuer_head.load(Rx), q.tail.load(Rx), q.enqueuer_tail.load(Rx))
 }
 
+#[allow(dead_code)] pub(crate) fn head_len<T: Debug + Default, const N: usize>(q: &AtomicMove<T, N>) -> (u32, u32) {
+    let (h, _dh, t, _et) = counters(q); (h, t.wrapping_sub(h))
+}
+#[allow(dead_code)] pub(crate) fn is_quiescent<T: Debug + Default, const N: usize>(q: &AtomicMove<T, N>) -> bool {
+    let (h, dh, t, et) = counters(q); h == dh && t == et
+}
 /// `Inv` + view equality: counters are exactly those of `(origin, len, resv)`
 #[allow(dead_code)] pub(crate) fn counters_are<T: Debug + Default, const N: usize>(q: &AtomicMove<T, N>, s: RingState) -> bool {
     let (h, dh, t, et) = counters(q);
